@@ -240,6 +240,7 @@ type drv struct {
 	chanPend int
 	relKeys  map[string][2]string
 	// index judgement
+	lostA         map[string]bool // spaces whose map-A file the harness removed from the disk
 	rejected      []string
 	classesJudged map[string]bool
 	filesJudged   int
@@ -1137,8 +1138,61 @@ func (d *drv) allowDelete(al *allow, sid string, err error, aOwned bool) {
 	if o := errClass(err); strings.HasPrefix(o, "error") {
 		// accepted but the removal itself failed half-way
 		al.del[s.keyB()], al.del[s.keyA()] = "may", "may"
+		if d.lostA[sid] {
+			// the only thing that can have failed is the removal of the map-A file the harness itself had taken
+			// away: the space is forgotten by the keeper, so its plot file must be gone as well ("erases exactly
+			// that space's files"), or the next start-up finds and indexes it again
+			prev := al.post
+			keyB := s.keyB()
+			al.post = func(after listing) {
+				if prev != nil {
+					prev(after)
+				}
+				d.refreshInfos() // the listing as it is after the call
+				if _, listed := d.infos[sid]; listed {
+					return
+				}
+				if _, still := after[keyB]; still {
+					d.violate("deleted-space-plot-file-survives", map[string]string{"cause": "map-a-file-was-missing"}, d.detail(&opRec{Kind: "delete", Sid: sid}, map[string]interface{}{"sid": sid, "error": errClass(err)}))
+				} else {
+					d.count("deletes_with_missing_map_a_erased_plot_file")
+				}
+			}
+		}
 		delete(d.spaces, sid)
 	}
+}
+
+// loseMapA: the map-A file of a registered space disappears from the disk (removed by the operator, a cleaning
+// job, a failing disk) - a harness operation, not judged itself. A Delete of that space follows.
+func (d *drv) loseMapAThenDelete() bool {
+	var cands []string
+	for _, sid := range d.listedSids(func(sid, st string) bool { return st == "registered" }) {
+		if s := d.spaces[sid]; s != nil && d.mapAOwned(sid) {
+			if _, ok := d.last[s.keyA()]; ok {
+				cands = append(cands, sid)
+			}
+		}
+	}
+	sid := d.pick(cands)
+	if sid == "" {
+		return false
+	}
+	s := d.spaces[sid]
+	d.op("harness:unlink-map-a", sid, "", func(o *opRec) *allow {
+		al := newAllow()
+		al.harness = true
+		al.del[s.keyA()] = "must"
+		if err := os.Remove(d.pathOf(s.keyA())); err != nil {
+			o.Result = "error:" + err.Error()
+		} else {
+			o.Result = "ok"
+			d.lostA[sid] = true
+		}
+		return al
+	})
+	d.single(engine.Delete, sid, "")
+	return true
 }
 
 func readHeaderOf(l listing, d *drv, k string) (hdrView, error) {
@@ -1507,7 +1561,7 @@ func (d *drv) restartCheck() {
 func runScenario(seed int64, sc *scenario, root string, trace bool) *scResult {
 	t0 := time.Now()
 	res := &scResult{Idx: sc.Idx, Counters: map[string]int64{}}
-	d := &drv{sc: sc, root: root, res: res, trace: trace, rng: rootRng(seed).Derive("actions", sc.Idx), pos: "none", spaces: map[string]*spaceM{}, classesJudged: map[string]bool{}, timeout: 120 * time.Second}
+	d := &drv{sc: sc, root: root, res: res, trace: trace, rng: rootRng(seed).Derive("actions", sc.Idx), pos: "none", spaces: map[string]*spaceM{}, lostA: map[string]bool{}, classesJudged: map[string]bool{}, timeout: 120 * time.Second}
 	os.RemoveAll(root)
 	defer func() {
 		d.marker("begin", 1<<30)
@@ -1602,11 +1656,16 @@ func runScenario(seed int64, sc *scenario, root string, trace bool) *scResult {
 	d.proofs()
 	n := sc.NActions
 	holdAt, mineAt := d.rng.Intn(n), d.rng.Intn(n)
+	loseAt := -1
+	if sc.Idx%3 == 1 {
+		loseAt = d.rng.Intn(n)
+	}
 	for i := 0; i < n && !d.dead; i++ {
 		if !d.started {
 			d.keeperStart()
 		}
 		switch {
+		case i == loseAt && d.loseMapAThenDelete():
 		case i == holdAt && d.holdAttack():
 		case i == mineAt && d.mineAttack():
 		default:
